@@ -68,14 +68,13 @@ func (s *gkvp) Add(as ...Attr) {
 
 func (s *gkvp) SerializeValueTo(pc *PrintCtx) {
 	if pc.jsonMode {
-		if pc.noColor {
-			pc.pcAppendStringKey(s.key)
-			pc.pcAppendByte(':')
-		} else {
-			ct.wrapDimColorTo(pc, s.key)
-			pc.pcAppendByte(':')
-			ct.echoColorAndBg(pc, pc.clr, pc.bg)
-		}
+		// a group used as a value: {"key":{members}}
+		pc.pcAppendByte('{')
+		pc.pcAppendStringKey(s.key)
+		pc.pcAppendByte(':')
+		s.items.SerializeValueTo(pc)
+		pc.pcAppendByte('}')
+		return
 	}
 	// if sb.jsonMode {
 	// 	sb.appendRune('{')
@@ -95,6 +94,13 @@ func (s *gkvp) SerializeValueTo(pc *PrintCtx) {
 }
 
 func (s Attrs) SerializeValueTo(pc *PrintCtx) {
+	if pc.jsonMode {
+		// the members of a group make a nested object
+		pc.pcAppendByte('{')
+		_ = serializeAttrsImpl(pc, s, true)
+		pc.pcAppendByte('}')
+		return
+	}
 	_ = serializeAttrs(pc, s)
 }
 
@@ -124,6 +130,13 @@ func dedupeSlice[S ~[]E, E any](x S, cmp func(a, b E) bool) S {
 // The caller can do something with the object, For instance, printImpl
 // will dump the error's stack trace if necessary.
 func serializeAttrs(pc *PrintCtx, kvps Attrs) (err error) { //nolint:revive
+	return serializeAttrsImpl(pc, kvps, false)
+}
+
+// serializeAttrsImpl does the job of serializeAttrs. With asObject set
+// (JSON mode only) kvps are the members of a nested object, so the
+// first member is not preceded by a comma.
+func serializeAttrsImpl(pc *PrintCtx, kvps Attrs, asObject bool) (err error) { //nolint:revive
 	prefix := pc.prefix
 	inGroupedMode := pc.inGroupedMode
 
@@ -166,7 +179,11 @@ func serializeAttrs(pc *PrintCtx, kvps Attrs) (err error) { //nolint:revive
 		}
 
 		if pc.noColor {
-			pc.pcAppendComma()
+			if asObject {
+				asObject = false // no comma in front of the first member
+			} else {
+				pc.pcAppendComma()
+			}
 		} else {
 			pc.pcAppendByte(' ')
 			ct.echoColorAndBg(pc, pc.clr, pc.bg)
